@@ -10,8 +10,8 @@ import (
 	"bufio"
 	"encoding/json"
 	"fmt"
+	"math/rand"
 	"os"
-	"regexp"
 	"sort"
 	"strings"
 	"time"
@@ -25,6 +25,7 @@ import (
 
 func init() {
 	cmds["probe-index"] = probeIndex
+	cmds["replay-index"] = replayIndex
 }
 
 // ---- real index access ---------------------------------------------------------------------------
@@ -370,6 +371,846 @@ func probeIndex(args []string) int {
 			fmt.Printf("cond %-28s mst=%s want=%q\n   show   %s %q err=%v\n   select %s %q err=%v\n", c, m, want, flag(keyOf(sh)), keyOf(sh), err1, flag(keyOf(se)), keyOf(se), err2)
 		}
 	}
-	_ = regexp.QuoteMeta
 	return 0
+}
+
+// ==== replay-index ================================================================================
+
+type ixKey struct {
+	M string              `json:"m"`
+	T map[string][]string `json:"t"`
+}
+
+type ixIDEntry struct {
+	K  ixKey `json:"k"`
+	ID int   `json:"id"`
+}
+
+type ixPrediction struct {
+	D   string `json:"d"`
+	IDs []int  `json:"ids"`
+}
+
+type ixQuery struct {
+	M     string                `json:"m"`
+	P     json.RawMessage       `json:"p"`
+	IDs   []int                 `json:"ids"`
+	Keys  []ixKey               `json:"keys"`
+	TK    []string              `json:"tk"`
+	TV    map[string][][]string `json:"tv"`
+	DShow []ixPrediction        `json:"dshow"`
+	DSel  []ixPrediction        `json:"dsel"`
+}
+
+type ixStep struct {
+	A    string          `json:"a"`
+	Args json.RawMessage `json:"args"`
+	Exp  struct {
+		IDs []ixIDEntry     `json:"ids"`
+		Vis []int           `json:"vis"`
+		X   json.RawMessage `json:"x"`
+	} `json:"exp"`
+}
+
+type ixCase struct {
+	ID   int      `json:"id"`
+	Seed int64    `json:"seed"`
+	Hist []ixStep `json:"hist"`
+}
+
+type ixResult struct {
+	ID       int               `json:"id"`
+	OK       bool              `json:"ok"`
+	Step     int               `json:"step"`
+	Action   string            `json:"action,omitempty"`
+	Detail   string            `json:"detail,omitempty"`
+	Infra    string            `json:"infra,omitempty"`
+	Known    string            `json:"known,omitempty"` // comma separated finding ids re-observed in this case
+	KnownN   map[string]int    `json:"known_n,omitempty"`
+	KnownEx  map[string]string `json:"known_ex,omitempty"`
+	Lookups  int               `json:"lookups"`
+	Searches int               `json:"searches"` // predicates evaluated (each on all entry points)
+	Compared int               `json:"compared"` // entry-point results compared
+	Conc     string            `json:"conc,omitempty"`
+}
+
+// finding ids of the deviation classes of SeriesIndex.tla
+var classFinding = map[byte]string{'S': "F-C10-1", 'L': "F-C10-2", 'E': "F-C10-3", 'N': "F-C10-4", 'C': "F-C10-5"}
+
+const (
+	findLookup  = "F-C10-6"
+	findTagKeys = "F-C10-7"
+)
+
+// ---- concretisation of the abstract alphabets ------------------------------------------------------
+
+type ixConc struct {
+	ch   map[string]string // abstract character -> concrete text (one rune)
+	key  map[string]string // abstract tag key -> concrete
+	mst  map[string]string
+	desc string
+}
+
+// characters that are awkward for the line protocol, for InfluxQL, for regular expressions or for the
+// index's own item encoding (\x01 \x02 are its separator bytes; \x00, its escape byte, cannot be
+// written in an InfluxQL literal at all)
+var nastyRunes = []string{",", "=", " ", `\`, `"`, `'`, "/", ".", "*", "[", "]", "(", ")", "|", "$", "^", "+", "?", "{", "-", ":", ";", "#", "é", "世", "ß", "\t", "w", "e", "B", "_", "~", "%", "\x7f", " ", "😀"}
+var nastyKeys = []string{"host", "a,b", "a b", "a=b", "ü", "k\x01", "k\x02v", `q"k`, `k\`, "k'", "a.b", "k/", "tag", "_field", "名", "k-1", "A", "a"}
+var nastyMsts = []string{"cpu", "cpu load", "m=1", "世界", "cpu.total", `m"q`, "m'", "a-b", "m1", "M", "mst_0000"}
+
+func newIxConc(rng *rand.Rand) *ixConc {
+	c := &ixConc{ch: map[string]string{}, key: map[string]string{}, mst: map[string]string{}}
+	perm := rng.Perm(len(nastyRunes))
+	for i, a := range []string{"x", "y", "z"} {
+		c.ch[a] = nastyRunes[perm[i]]
+	}
+	if rng.Intn(4) == 0 { // plain letters now and then
+		c.ch["x"], c.ch["y"], c.ch["z"] = "w", "e", "d"
+	}
+	sep := 1 + rng.Intn(2)
+	c.ch["s"] = string([]byte{byte(sep)})
+	c.ch["1"] = string([]byte{byte('0' + sep)}) // the digit the index writes after its escape byte for this separator
+	c.ch["2"] = "7"
+	kp := rng.Perm(len(nastyKeys))
+	c.key["a"] = nastyKeys[kp[0]]
+	c.key["b"] = nastyKeys[kp[1]]
+	if rng.Intn(4) == 0 {
+		c.key["b"] = c.key["a"] + nastyKeys[kp[1]] // one key a prefix of the other
+	}
+	mp := rng.Perm(len(nastyMsts))
+	c.mst["m1"] = nastyMsts[mp[0]]
+	c.mst["m2"] = nastyMsts[mp[1]]
+	switch rng.Intn(4) {
+	case 0:
+		c.mst["m2"] = c.mst["m1"] + "_0000"
+	case 1:
+		c.mst["m2"] = c.mst["m1"] + "x"
+	}
+	c.desc = fmt.Sprintf("x=%q y=%q z=%q s=%q 1=%q a=%q b=%q m1=%q m2=%q", c.ch["x"], c.ch["y"], c.ch["z"], c.ch["s"], c.ch["1"], c.key["a"], c.key["b"], c.mst["m1"], c.mst["m2"])
+	return c
+}
+
+func (c *ixConc) str(abs []string) string {
+	var sb strings.Builder
+	for _, a := range abs {
+		v, ok := c.ch[a]
+		if !ok {
+			panic("unknown abstract character " + a)
+		}
+		sb.WriteString(v)
+	}
+	return sb.String()
+}
+
+func isNoTag(v []string) bool { return len(v) == 1 && v[0] == "_" }
+
+// tags of an abstract key as written by the client (empty values included)
+func (c *ixConc) rawTags(k ixKey) []ctag {
+	var out []ctag
+	for _, ak := range []string{"a", "b"} {
+		v, ok := k.T[ak]
+		if !ok || isNoTag(v) {
+			continue
+		}
+		out = append(out, ctag{c.key[ak], c.str(v)})
+	}
+	return out
+}
+
+// tags of a stored series (normalised key: no empty values)
+func (c *ixConc) normTags(k ixKey) []ctag {
+	var out []ctag
+	for _, t := range c.rawTags(k) {
+		if t.V != "" {
+			out = append(out, t)
+		}
+	}
+	return out
+}
+
+func reQuoteRune(s string) string {
+	// escape every ASCII punctuation character (valid inside and outside a character class)
+	var sb strings.Builder
+	for _, r := range s {
+		if r == '\\' {
+			sb.WriteString(`\x5c`) // InfluxQL's regex scanner cannot hold a pattern that ends in an escaped backslash
+			continue
+		}
+		if r < 0x80 && !(r >= '0' && r <= '9') && !(r >= 'a' && r <= 'z') && !(r >= 'A' && r <= 'Z') && r > ' ' && r != 0x7f && r != '_' {
+			sb.WriteByte('\\')
+		}
+		sb.WriteRune(r)
+	}
+	return sb.String()
+}
+
+// regex source text of an abstract regex (sequence of items)
+func (c *ixConc) regex(items []json.RawMessage) (string, error) {
+	var sb strings.Builder
+	for _, raw := range items {
+		var it []json.RawMessage
+		if err := json.Unmarshal(raw, &it); err != nil {
+			return "", err
+		}
+		var kind string
+		_ = json.Unmarshal(it[0], &kind)
+		seq := func(r json.RawMessage) string {
+			var a []string
+			_ = json.Unmarshal(r, &a)
+			return c.str(a)
+		}
+		switch kind {
+		case "bol":
+			sb.WriteString("^")
+		case "eol":
+			sb.WriteString("$")
+		case "lit":
+			sb.WriteString(reQuoteRune(seq(it[1])))
+		case "cls":
+			var a []string
+			_ = json.Unmarshal(it[1], &a)
+			sb.WriteString("[")
+			for _, x := range a {
+				sb.WriteString(reQuoteRune(c.ch[x]))
+			}
+			sb.WriteString("]")
+		case "dig":
+			sb.WriteString("[0-9]")
+		case "alt":
+			var alts [][]string
+			_ = json.Unmarshal(it[1], &alts)
+			var parts []string
+			for _, a := range alts {
+				parts = append(parts, reQuoteRune(c.str(a)))
+			}
+			sort.Sort(sort.Reverse(sort.StringSlice(parts)))
+			if len(items) == 1 {
+				sb.WriteString(strings.Join(parts, "|"))
+			} else {
+				sb.WriteString("(" + strings.Join(parts, "|") + ")")
+			}
+		case "any*":
+			sb.WriteString(".*")
+		case "any+":
+			sb.WriteString(".+")
+		case "opt":
+			sb.WriteString("(" + reQuoteRune(seq(it[1])) + ")?")
+		case "star":
+			var a string
+			_ = json.Unmarshal(it[1], &a)
+			sb.WriteString(reQuoteRune(c.ch[a]) + "*")
+		default:
+			return "", fmt.Errorf("unknown regex item %s", kind)
+		}
+	}
+	return sb.String(), nil
+}
+
+// InfluxQL text of an abstract predicate
+func (c *ixConc) cond(raw json.RawMessage) (string, error) {
+	var p []json.RawMessage
+	if err := json.Unmarshal(raw, &p); err != nil {
+		return "", err
+	}
+	var op string
+	_ = json.Unmarshal(p[0], &op)
+	switch op {
+	case "TRUE":
+		return "", nil
+	case "P":
+		in, err := c.cond(p[1])
+		return "(" + in + ")", err
+	case "AND", "OR":
+		l, err := c.cond(p[1])
+		if err != nil {
+			return "", err
+		}
+		r, err := c.cond(p[2])
+		return l + " " + op + " " + r, err
+	}
+	var ak string
+	_ = json.Unmarshal(p[1], &ak)
+	key := influxql.QuoteIdent(c.key[ak])
+	if !strings.HasPrefix(key, `"`) {
+		key = `"` + key + `"`
+	}
+	switch op {
+	case "=", "!=":
+		var v []string
+		_ = json.Unmarshal(p[2], &v)
+		return key + " " + op + " " + influxql.QuoteString(c.str(v)), nil
+	case "=~", "!~":
+		var items []json.RawMessage
+		_ = json.Unmarshal(p[2], &items)
+		re, err := c.regex(items)
+		if err != nil {
+			return "", err
+		}
+		return key + " " + op + " /" + strings.ReplaceAll(re, "/", `\/`) + "/", nil
+	}
+	return "", fmt.Errorf("unknown predicate op %s", op)
+}
+
+// ---- replay ---------------------------------------------------------------------------------------
+
+type ixSeries struct {
+	abs    int
+	real   uint64
+	mst    string // concrete
+	tags   []ctag // concrete, normalised
+	render string
+}
+
+type ixReplay struct {
+	x      *ixEnv
+	c      *ixConc
+	byAbs  map[int]*ixSeries
+	byReal map[uint64]*ixSeries
+	res    *ixResult
+	closed bool
+}
+
+func (r *ixReplay) known(id, example string) {
+	if r.res.KnownN == nil {
+		r.res.KnownN = map[string]int{}
+		r.res.KnownEx = map[string]string{}
+	}
+	r.res.KnownN[id]++
+	if _, ok := r.res.KnownEx[id]; !ok {
+		r.res.KnownEx[id] = example + " [concretisation: " + r.c.desc + "]"
+	}
+}
+
+func classFindings(d string) []string {
+	var out []string
+	for i := 0; i < len(d); i++ {
+		out = append(out, classFinding[d[i]])
+	}
+	return out
+}
+
+func (r *ixReplay) realSet(abs []int) ([]uint64, error) {
+	out := make([]uint64, 0, len(abs))
+	for _, a := range abs {
+		s := r.byAbs[a]
+		if s == nil {
+			return nil, fmt.Errorf("specification id %d was never created", a)
+		}
+		out = append(out, s.real)
+	}
+	sort.Slice(out, func(i, j int) bool { return out[i] < out[j] })
+	return out, nil
+}
+
+func eqU64(a, b []uint64) bool {
+	if len(a) != len(b) {
+		return false
+	}
+	for i := range a {
+		if a[i] != b[i] {
+			return false
+		}
+	}
+	return true
+}
+
+func eqStr(a, b []string) bool {
+	if len(a) != len(b) {
+		return false
+	}
+	for i := range a {
+		if a[i] != b[i] {
+			return false
+		}
+	}
+	return true
+}
+
+func (r *ixReplay) names(ids []uint64) []string {
+	var out []string
+	for _, id := range ids {
+		if s := r.byReal[id]; s != nil {
+			out = append(out, s.render)
+		} else {
+			out = append(out, fmt.Sprintf("?unknown-id-%x", id))
+		}
+	}
+	sort.Strings(out)
+	return out
+}
+
+// checkIDs: after every action every known series key must resolve to its one id
+func (r *ixReplay) checkIDs(st *ixStep) string {
+	vis := map[int]bool{}
+	for _, v := range st.Exp.Vis {
+		vis[v] = true
+	}
+	seen := map[int]bool{}
+	for _, e := range st.Exp.IDs {
+		s := r.byAbs[e.ID]
+		if s == nil {
+			return fmt.Sprintf("specification lists id %d that the replay never created", e.ID)
+		}
+		if seen[e.ID] {
+			return fmt.Sprintf("specification id table lists id %d twice", e.ID)
+		}
+		seen[e.ID] = true
+		got, err := r.x.idx().GetSeriesIdBySeriesKey(indexKeyOf(s.mst, s.tags))
+		r.res.Lookups++
+		if err != nil {
+			return fmt.Sprintf("GetSeriesIdBySeriesKey(%q): %v", s.render, err)
+		}
+		if got == s.real {
+			continue
+		}
+		if got == 0 && !vis[e.ID] {
+			// deviation model lookup_misses_pending: neither cached nor flushed -> not found
+			r.known(findLookup, fmt.Sprintf("GetSeriesIdBySeriesKey(%q) = 0 although the series was created (id %x): items not flushed yet and the cache was dropped", s.render, s.real))
+			continue
+		}
+		return fmt.Sprintf("GetSeriesIdBySeriesKey(%q) = %x, want %x (the id this series got when it was created)", s.render, got, s.real)
+	}
+	return ""
+}
+
+type listing struct {
+	keys []string            // rendered series keys (sorted, with duplicates)
+	tk   []string            // tag keys
+	tv   map[string][]string // tag key -> values
+}
+
+func (r *ixReplay) listingOf(ids []uint64) listing {
+	l := listing{tv: map[string][]string{}}
+	tk := map[string]bool{}
+	tv := map[string]map[string]bool{}
+	for _, id := range ids {
+		s := r.byReal[id]
+		l.keys = append(l.keys, s.render)
+		for _, t := range s.tags {
+			tk[t.K] = true
+			if tv[t.K] == nil {
+				tv[t.K] = map[string]bool{}
+			}
+			tv[t.K][t.V] = true
+		}
+	}
+	sort.Strings(l.keys)
+	for k := range tk {
+		l.tk = append(l.tk, k)
+	}
+	sort.Strings(l.tk)
+	for k, m := range tv {
+		for v := range m {
+			l.tv[k] = append(l.tv[k], v)
+		}
+		sort.Strings(l.tv[k])
+	}
+	return l
+}
+
+// as-implemented model of engine.handleTagKeys (known finding F-C10-7): the tag keys are recovered by
+// splitting the unescaped rendering "mst,k=v,k=v" at ',' and '='
+func splitModelTagKeys(rendered []string) []string {
+	m := map[string]bool{}
+	for _, k := range rendered {
+		arr := strings.Split(k, ",")
+		for _, item := range arr[1:] {
+			m[strings.Split(item, "=")[0]] = true
+		}
+	}
+	var out []string
+	for k := range m {
+		out = append(out, k)
+	}
+	sort.Strings(out)
+	return out
+}
+
+func dedup(a []string) []string {
+	var out []string
+	for i, s := range a {
+		if i == 0 || s != a[i-1] {
+			out = append(out, s)
+		}
+	}
+	return out
+}
+
+func (r *ixReplay) search(st *ixStep) string {
+	var qs []ixQuery
+	if err := json.Unmarshal(st.Exp.X, &qs); err != nil {
+		r.res.Infra = "bad Search step: " + err.Error()
+		return "infra"
+	}
+	eng := r.x.e.Eng
+	full := influxql.TimeRange{Min: time.Unix(0, influxql.MinTime).UTC(), Max: time.Unix(0, influxql.MaxTime).UTC()}
+	for qi, q := range qs {
+		text, err := r.c.cond(q.P)
+		if err != nil {
+			r.res.Infra = "cannot render predicate: " + err.Error()
+			return "infra"
+		}
+		mst := r.c.mst[q.M]
+		name := mst + "_0000"
+		where := fmt.Sprintf("query %d: measurement %q WHERE %s", qi, mst, strings.Trim(fmt.Sprintf("%q", text), `"`))
+		want, err := r.realSet(q.IDs)
+		if err != nil {
+			r.res.Infra = err.Error()
+			return "infra"
+		}
+		r.res.Searches++
+
+		// pick the model (design, or the smallest set of deviation classes) that explains a result
+		explain := func(got []uint64, preds []ixPrediction) (bool, string, string) {
+			if eqU64(got, want) {
+				return true, "", ""
+			}
+			best := ""
+			for _, p := range preds {
+				ps, err := r.realSet(p.IDs)
+				if err != nil {
+					continue
+				}
+				if eqU64(got, ps) && (best == "" || len(p.D) < len(best)) {
+					best = p.D
+				}
+			}
+			if best != "" {
+				return true, best, ""
+			}
+			return false, "", fmt.Sprintf("got %q, want %q", r.names(got), r.names(want))
+		}
+
+		// (1) SHOW path, ids: MergeSetIndex.searchTSIDs
+		gotShow, err := r.x.showIDs(mst, text)
+		if err != nil {
+			return where + ": SearchSeriesByTableAndCond: " + err.Error()
+		}
+		r.res.Compared++
+		ok, dshow, why := explain(gotShow, q.DShow)
+		if !ok {
+			return where + ": SHOW path (searchTSIDs) " + why
+		}
+		if dshow != "" {
+			for _, f := range classFindings(dshow) {
+				r.known(f, fmt.Sprintf("%s: SHOW path selects %q, unanchored/absent-as-empty evaluation selects %q (deviation classes %s)", where, r.names(gotShow), r.names(want), dshow))
+			}
+		}
+		// every id returned must be a known series; listings are judged against the explained set
+		for _, id := range gotShow {
+			if r.byReal[id] == nil {
+				return fmt.Sprintf("%s: SHOW path returned id %x that no series owns", where, id)
+			}
+		}
+		lst := r.listingOf(gotShow)
+
+		// (2) SHOW SERIES keys: MergeSetIndex.SearchSeriesKeys
+		keys, err := r.x.showKeys(mst, text)
+		if err != nil {
+			return where + ": SearchSeriesKeys: " + err.Error()
+		}
+		r.res.Compared++
+		if !eqStr(keys, lst.keys) {
+			return fmt.Sprintf("%s: SearchSeriesKeys lists %q, the ids selected are %q", where, keys, lst.keys)
+		}
+
+		// (3) SELECT path: MergeSetIndex.SearchSeriesWithOpts
+		gotSel, err := r.x.selectIDs(mst, text)
+		if err != nil {
+			return where + ": SearchSeriesWithOpts: " + err.Error()
+		}
+		r.res.Compared++
+		ok, dsel, why := explain(gotSel, q.DSel)
+		if !ok {
+			return where + ": SELECT path (SearchSeriesWithOpts) " + why
+		}
+		if dsel != "" {
+			for _, f := range classFindings(dsel) {
+				r.known(f, fmt.Sprintf("%s: SELECT path selects %q, unanchored/absent-as-empty evaluation selects %q (deviation classes %s)", where, r.names(gotSel), r.names(want), dsel))
+			}
+		}
+
+		// (4) engine level listings (what SHOW SERIES / SHOW TAG KEYS / SHOW TAG VALUES return)
+		cond, err := showCond(text)
+		if err != nil {
+			return where + ": " + err.Error()
+		}
+		sk, err := eng.SeriesKeys(engx.DB, []uint32{engx.PT}, [][]byte{[]byte(name)}, cond, full)
+		if err != nil {
+			return where + ": Engine.SeriesKeys: " + err.Error()
+		}
+		r.res.Compared++
+		if !eqStr(sk, dedup(lst.keys)) {
+			return fmt.Sprintf("%s: Engine.SeriesKeys lists %q, the ids selected are %q", where, sk, lst.keys)
+		}
+		cond, _ = showCond(text)
+		tks, err := eng.TagKeys(engx.DB, []uint32{engx.PT}, [][]byte{[]byte(name)}, cond, full)
+		if err != nil {
+			return where + ": Engine.TagKeys: " + err.Error()
+		}
+		r.res.Compared++
+		if why := r.judgeTagKeys(mst, tks, lst); why != "" {
+			if why == "known" {
+				r.known(findTagKeys, fmt.Sprintf("%s: Engine.TagKeys returns %q for series %q (keys recovered by splitting the unescaped series key at ',' and '=')", where, tks, lst.keys))
+			} else {
+				return where + ": Engine.TagKeys " + why
+			}
+		}
+		cond, _ = showCond(text)
+		ka, kb := r.c.key["a"], r.c.key["b"]
+		tvs, err := eng.TagValues(engx.DB, []uint32{engx.PT}, map[string][][]byte{name: {[]byte(ka), []byte(kb)}}, cond, full)
+		if err != nil {
+			return where + ": Engine.TagValues: " + err.Error()
+		}
+		r.res.Compared++
+		gotTV := map[string][]string{}
+		for _, t := range tvs {
+			if t.Name != mst {
+				return fmt.Sprintf("%s: Engine.TagValues reports measurement %q", where, t.Name)
+			}
+			for _, v := range t.Values {
+				gotTV[v.Key] = append(gotTV[v.Key], v.Value)
+			}
+		}
+		for _, k := range []string{ka, kb} {
+			g := gotTV[k]
+			sort.Strings(g)
+			if !eqStr(g, lst.tv[k]) {
+				return fmt.Sprintf("%s: Engine.TagValues(%q) = %q, the series selected carry %q", where, k, g, lst.tv[k])
+			}
+			delete(gotTV, k)
+		}
+		if len(gotTV) != 0 {
+			return fmt.Sprintf("%s: Engine.TagValues reports values for keys that were not asked for: %v", where, gotTV)
+		}
+
+		// cross-check of the specification's own listings against the ones derived here (design result only)
+		if dshow == "" {
+			var wantTK []string
+			for _, k := range q.TK {
+				wantTK = append(wantTK, r.c.key[k])
+			}
+			sort.Strings(wantTK)
+			if !eqStr(wantTK, lst.tk) {
+				r.res.Infra = fmt.Sprintf("%s: specification tag keys %q, derived %q", where, wantTK, lst.tk)
+				return "infra"
+			}
+			for ak, vals := range q.TV {
+				var w []string
+				for _, v := range vals {
+					w = append(w, r.c.str(v))
+				}
+				sort.Strings(w)
+				if !eqStr(w, lst.tv[r.c.key[ak]]) {
+					r.res.Infra = fmt.Sprintf("%s: specification tag values of %s %q, derived %q", where, ak, w, lst.tv[r.c.key[ak]])
+					return "infra"
+				}
+			}
+		}
+	}
+	return ""
+}
+
+// Engine.TagKeys returns one string "measurement,key,key" per measurement with at least one key
+func (r *ixReplay) judgeTagKeys(mst string, got []string, lst listing) string {
+	match := func(keys []string) bool {
+		if len(keys) == 0 {
+			return len(got) == 0
+		}
+		if len(got) != 1 {
+			return false
+		}
+		// any order of the keys
+		var perm func(rest []string, acc string) bool
+		perm = func(rest []string, acc string) bool {
+			if len(rest) == 0 {
+				return acc == got[0]
+			}
+			for i := range rest {
+				nr := append(append([]string{}, rest[:i]...), rest[i+1:]...)
+				if perm(nr, acc+","+rest[i]) {
+					return true
+				}
+			}
+			return false
+		}
+		return perm(keys, mst)
+	}
+	if match(lst.tk) {
+		return ""
+	}
+	if model := splitModelTagKeys(lst.keys); !eqStr(model, lst.tk) && match(model) {
+		return "known"
+	}
+	return fmt.Sprintf("= %q, the series selected carry the tag keys %q", got, lst.tk)
+}
+
+func (r *ixReplay) create(st *ixStep) string {
+	var raw ixKey
+	if err := json.Unmarshal(st.Args, &raw); err != nil {
+		r.res.Infra = "bad Create args: " + err.Error()
+		return "infra"
+	}
+	var x struct {
+		ID  int `json:"id"`
+		New int `json:"new"`
+		Dup int `json:"dup"`
+	}
+	if err := json.Unmarshal(st.Exp.X, &x); err != nil {
+		r.res.Infra = "bad Create exp: " + err.Error()
+		return "infra"
+	}
+	mst := r.c.mst[raw.M]
+	kept, err := r.x.createSeries(mst, r.c.rawTags(raw))
+	if err != nil {
+		return fmt.Sprintf("write of %q rejected: %v", renderKey(mst, r.c.rawTags(raw)), err)
+	}
+	norm := r.c.normTags(raw)
+	if renderKey(mst, kept) != renderKey(mst, norm) {
+		return fmt.Sprintf("the write path kept tags %q, the specification's normalisation (empty values dropped) gives %q", renderKey(mst, kept), renderKey(mst, norm))
+	}
+	got, err := r.x.idx().GetSeriesIdBySeriesKey(indexKeyOf(mst, norm))
+	r.res.Lookups++
+	if err != nil {
+		return "GetSeriesIdBySeriesKey after create: " + err.Error()
+	}
+	if got == 0 {
+		return fmt.Sprintf("series %q has no id right after it was written", renderKey(mst, norm))
+	}
+	if x.New == 1 {
+		if o := r.byReal[got]; o != nil {
+			return fmt.Sprintf("new series %q got id %x which already belongs to series %q", renderKey(mst, norm), got, o.render)
+		}
+		s := &ixSeries{abs: x.ID, real: got, mst: mst, tags: norm, render: renderKey(mst, norm)}
+		r.byAbs[x.ID] = s
+		r.byReal[got] = s
+		return ""
+	}
+	s := r.byAbs[x.ID]
+	if s == nil {
+		r.res.Infra = fmt.Sprintf("Create of existing id %d unknown to the replay", x.ID)
+		return "infra"
+	}
+	if got == s.real {
+		return ""
+	}
+	if x.Dup == 1 && r.byReal[got] == nil {
+		// deviation model lookup_misses_pending predicts exactly this: a second, fresh id for the series
+		r.known(findLookup, fmt.Sprintf("series %q written again after ClearCache and before the index flush got a second id %x (first id %x)", s.render, got, s.real))
+		return "stop"
+	}
+	return fmt.Sprintf("existing series %q resolved to id %x on its second write, it was created with id %x", s.render, got, s.real)
+}
+
+func replayIxCase(c *ixCase) (res ixResult) {
+	res = ixResult{ID: c.ID, OK: true, Step: -1}
+	rng := rand.New(rand.NewSource(c.Seed*1000003 + int64(c.ID)))
+	conc := newIxConc(rng)
+	res.Conc = conc.desc
+	dir, err := os.MkdirTemp("/dev/shm", "vh-ix-")
+	if err != nil {
+		res.Infra = err.Error()
+		return
+	}
+	defer os.RemoveAll(dir)
+	x, err := openIx(dir + "/a")
+	if err != nil {
+		res.Infra = "open: " + err.Error()
+		return
+	}
+	r := &ixReplay{x: x, c: conc, byAbs: map[int]*ixSeries{}, byReal: map[uint64]*ixSeries{}, res: &res}
+	defer func() {
+		if !r.closed {
+			_ = x.e.Close()
+		}
+		if len(res.KnownN) > 0 {
+			var ids []string
+			for k := range res.KnownN {
+				ids = append(ids, k)
+			}
+			sort.Strings(ids)
+			res.Known = strings.Join(ids, ",")
+		}
+	}()
+	fail := func(i int, a, why string) {
+		res.OK = false
+		res.Step = i
+		res.Action = a
+		res.Detail = fmt.Sprintf("step %d %s: %s [concretisation: %s]", i, a, why, conc.desc)
+	}
+	for i := range c.Hist {
+		st := &c.Hist[i]
+		why := ""
+		switch st.A {
+		case "Create":
+			why = r.create(st)
+		case "IndexFlush":
+			x.e.IndexFlush()
+		case "ClearCache":
+			if err := x.e.Shard().GetIndexBuilder().ClearCache(); err != nil {
+				why = "ClearCache: " + err.Error()
+			}
+		case "Close":
+			if err := x.e.Close(); err != nil {
+				why = "Close: " + err.Error()
+			}
+			r.closed = true
+		case "Reopen":
+			e, err := engx.Open(x.dir, engx.Options{WalParts: 1})
+			if err != nil {
+				res.Infra = "reopen: " + err.Error()
+				return
+			}
+			x.e = e
+			r.closed = false
+		case "Search":
+			x.e.IndexFlush() // the specification only searches when nothing is pending; make it so
+			why = r.search(st)
+		default:
+			res.Infra = "unknown action " + st.A
+			return
+		}
+		if why == "infra" {
+			return
+		}
+		if why == "stop" {
+			return
+		}
+		if why == "" && !r.closed {
+			why = r.checkIDs(st)
+		}
+		if why != "" {
+			fail(i, st.A, why)
+			return
+		}
+	}
+	return
+}
+
+func replayIndex(args []string) int {
+	sc := bufio.NewScanner(os.Stdin)
+	sc.Buffer(make([]byte, 1<<20), 1<<28)
+	out := bufio.NewWriter(os.Stdout)
+	defer out.Flush()
+	rc := 0
+	for sc.Scan() {
+		line := sc.Bytes()
+		if len(line) == 0 {
+			continue
+		}
+		var c ixCase
+		if err := json.Unmarshal(line, &c); err != nil {
+			fmt.Fprintln(os.Stderr, "bad case:", err)
+			return 2
+		}
+		res := replayIxCase(&c)
+		if !res.OK {
+			rc = 1
+		}
+		b, _ := json.Marshal(res)
+		out.Write(b)
+		out.WriteByte('\n')
+		out.Flush()
+	}
+	return rc
 }
